@@ -202,6 +202,8 @@ def s_load(draw, mdl: M.Model, kinds=('const', 'speed', 'pos', 'time')):
     u = draw(st.one_of(st.floats(-0.5, 0.9), st.floats(-3, 3), st.sampled_from([0.0, 0.5, 1.5, -1.0])))
     load = {'c0': stall * u, 'cw': 0.0, 'csin': 0.0, 'kpos': 1.0, 'ct': 0.0, 'period': 1.0,
             'unit': draw(s_unit('Torque'))}
+    if draw(st.integers(0, 3)) == 0:
+        load['numpy'] = True
     if 'speed' in kinds and draw(st.booleans()):
         load['cw'] = stall / noload * draw(st.floats(0, 0.5))
     if 'pos' in kinds and draw(st.booleans()):
